@@ -95,6 +95,12 @@ def library_fault_site(exc):
 def replay_internal_error(mod, v):
     """re-run the configuration on the current tree: reproduced iff the same kind of exception leaves the library"""
     from .bmc import Stats
+    if v.get("query") == "internal-error-configs":
+        try:
+            list(mod.configs(v["cfg"]["tier"], v["cfg"]["seed"]))
+        except Exception as e:
+            return type(e).__name__ == v.get("exc") and library_fault_site(e) is not None
+        return False
     out = Outcome(v["cfg"])
     try:
         mod.check(v["cfg"], out, Stats())
@@ -183,7 +189,21 @@ def run_check(mod, tier, seed):
     t0 = time.time()
     from .bmc import Stats
     pid = mod.PROPERTY
-    cfgs = list(mod.configs(tier, seed))
+    pre_violation = None
+    try:
+        cfgs = list(mod.configs(tier, seed))
+    except Exception as e:
+        # some families build (and elaborate) candidate configurations while enumerating them; an exception that leaves
+        # the library there is an internal error on a legal use, like the ones caught per configuration below
+        site = library_fault_site(e)
+        if site is None:
+            raise
+        cfgs = []
+        pre_violation = {"key": f"internal-error:configs:{type(e).__name__}:{site}",
+                         "what": f"{pid} the library fails with {type(e).__name__}: {str(e)[:120]} (raised in {site}) while the "
+                                 f"configuration family is being enumerated (constructing / elaborating legal configurations)",
+                         "query": "internal-error-configs", "exc": type(e).__name__, "cfg": {"tier": tier, "seed": seed},
+                         "stimulus": [], "prefix": 0, "k": 0, "detail": {}}
     mod._ALL_CONFIGS = cfgs          # (siblings that are elaborated before a configuration: see e1.history_of)
     total = Stats()
     violations = []
@@ -208,6 +228,8 @@ def run_check(mod, tier, seed):
         violations.extend(out.violations)
         if out.extra:
             extras.append(out.extra)
+    if pre_violation is not None:
+        violations.append(pre_violation)
     wall = time.time() - t0
 
     # ---- classify violations against the committed known-findings list ---------------------------
